@@ -360,7 +360,34 @@ class TenSym(PySym):
                 ax += 1
         return out
 
+    def _paired(self, t, key):
+        """numpy pairs several integer index arrays element-wise (a[:, i_list, j_list]); returns (positions of the list keys, L) or None"""
+        if not isinstance(key, tuple):
+            return None
+        pos = [k for k, x in enumerate(key) if isinstance(x, (list, tuple))]
+        if len(pos) < 2:
+            return None
+        if pos != list(range(pos[0], pos[0] + len(pos))) or any(x is None or x is Ellipsis for x in key):
+            raise Unsupported("several index arrays that are not adjacent")
+        L = {len(key[k]) for k in pos}
+        if len(L) != 1:
+            raise ShapeError("index arrays of different lengths %s" % sorted(len(key[k]) for k in pos))
+        return pos, L.pop()
+
     def getitem(self, t, key):
+        pr = self._paired(t, key)
+        if pr is not None:
+            pos, L = pr
+            parts = []
+            for l in range(L):
+                k2 = tuple(self.concrete(x[l]) if i in pos else x for i, x in enumerate(key))
+                parts.append(self.getitem(t, k2))
+            st = self.to_ten(parts)                      # (L, rest...)
+            lead = sum(1 for i, x in enumerate(key[:pos[0]]) if isinstance(x, slice))
+            perm = list(range(1, lead + 1)) + [0] + list(range(lead + 1, st.ndim))
+            r = st.transpose(perm)
+            r.view = True
+            return r
         plan = self._resolve(t, key)
         shape = [1 if p[0] == "new" else len(p[2]) for p in plan if p[0] == "new" or not p[3]]
         axes = [p for p in plan if p[0] == "ax"]
@@ -382,6 +409,18 @@ class TenSym(PySym):
     def setitem(self, t, key, value, op=None):
         if t.view:
             raise Unsupported("store into a view of another array")
+        pr = self._paired(t, key)
+        if pr is not None:
+            pos, L = pr
+            lead = sum(1 for i, x in enumerate(key[:pos[0]]) if isinstance(x, slice))
+            probe = self.getitem(t, key)
+            v = self.to_ten(value)
+            v = bcast(v, probe.shape) if v.shape != probe.shape else v
+            for l in range(L):
+                k2 = tuple(self.concrete(x[l]) if i in pos else x for i, x in enumerate(key))
+                sub = self.getitem(v, tuple([slice(None)] * lead + [l]))
+                self.setitem(t, k2, sub, op)
+            return
         plan = self._resolve(t, key)
         kept = [p for p in plan if p[0] == "new" or not p[3]]
         shape = tuple(1 if p[0] == "new" else len(p[2]) for p in kept)
@@ -919,6 +958,12 @@ class TenSym(PySym):
             for x in self.iterate(A(0)):
                 tot = self.binop(ast.Add(), tot, x)
             return tot
+        if cn in ("np.max", "np.min", "np.amax", "np.amin") and not any(k.arg == "axis" for k in n.keywords) and len(n.args) == 1:
+            t = self.to_ten(A(0))
+            cs = [x.const_value() for x in t.data]
+            if any(c is None for c in cs):
+                return self.opaque_tensor(last, [t, None], ())
+            return Rat(Poly.const(max(cs) if last in ("max", "amax") else min(cs)))
         if cn in ("np.argmin", "np.argmax", "np.argsort"):
             t = self.to_ten(A(0))
             axis = self.kw(n, "axis", 1)
